@@ -59,7 +59,7 @@ fn gen_entry(r: &mut Rng, g: &Gen) -> (BV, Class) {
 pub fn run_a(ctx: &Ctx, rep: &mut Report) {
     let g = Gen { max_depth: 3, max_items: 3, max_str: 8 };
     let mut r = ctx.rng("c19a");
-    let n = ctx.count(30_000, 1_000_000);
+    let n = ctx.count(90_000, 1_500_000);
     rep.need("replies_checked", 2000);
     rep.need("failure_replies_checked", 100);
     for k in 0..n {
@@ -139,7 +139,7 @@ pub fn run_a(ctx: &Ctx, rep: &mut Report) {
     }
     // totality on delimiter soup and mutated replies
     let mut r = ctx.rng("c19a-total");
-    let n = ctx.count(40_000, 1_000_000);
+    let n = ctx.count(120_000, 1_500_000);
     for _ in 0..n {
         let mut doc: Vec<u8> = if r.chance(1, 2) {
             b"d8:intervali1800e5:peersld2:ip8:10.0.0.17:peer id20:AAAAABBBBBCCCCCDDDDD4:porti7001eeee".to_vec()
